@@ -130,11 +130,12 @@ Definition feed_eqb (a b : list feed_item) : bool := list_eqb feed_item_eqb a b.
 Definition fnv_offset : Z := 14695981039346656037.
 Definition fnv_prime : Z := 1099511628211.
 Definition fnv_byte (h b : Z) : Z := ((Z.lxor h b) * fnv_prime) mod two64.
-Fixpoint fnv_u64_bytes (n : nat) (w : Z) (h : Z) : Z :=
-  match n with O => h | S n' => fnv_u64_bytes n' (w / 256) (fnv_byte h (w mod 256)) end.
+(* AddUint64 mixes the eight bytes most significant first *)
+Definition u64_bytes_be (w : Z) : list Z :=
+  map (fun k => (w / 2 ^ k) mod 256) [56; 48; 40; 32; 24; 16; 8; 0].
 Definition fnv_item (h : Z) (it : feed_item) : Z :=
   match it with
-  | FW w => fnv_u64_bytes 8 w h
+  | FW w => fold_left fnv_byte (u64_bytes_be w) h
   | FS s => fold_left fnv_byte s h
   end.
 Definition fnv_feed (l : list feed_item) : Z := fold_left fnv_item l fnv_offset.
